@@ -201,7 +201,7 @@ Definition finish (m : mode) (maxdiff : Z) (f : list row * list row) : res outpu
   match m with
   | Separate => Ok (mkOut (fst f) (Some (snd f)) None)
   | _ =>
-    do js <- results_resolve (fst f ++ snd f) maxdiff;
+    do js <- results_resolve (fst f ++ filter (fun w => negb (row_in w (fst f))) (snd f)) maxdiff;
     match m with
     | Best => Ok (mkOut (sort_by qid (fst js ++ filter (fun w => negb (mem_z (qid w) (map qid (fst js)))) (fst f))) None None)
     | Joined => Ok (mkOut (fst js) (Some (snd js)) None)
@@ -270,8 +270,9 @@ Proof. intros (Hp & q' & Hsrc & Hc). apply (from_cand_joinable P seeds refs Hsu 
 (* _MultiPassWorkflowCoordinator.execute and Program.run never raise *)
 Theorem multi_execute_total m maxdiff : exists o, multi_execute P seeds m maxdiff refs qq = Ok o.
 Proof. rewrite multi_execute_passes. destruct (run_passes_total m) as ([f1 f2] & E). rewrite E. cbn [bind]. unfold finish. cbn [fst snd].
-  destruct (results_resolve_total (f1 ++ f2) maxdiff) as (js & Ejs).
-  { intros w Hw. apply run_row_joinable. apply (run_passes_rows m f1 f2 E w Hw). }
+  destruct (results_resolve_total (f1 ++ filter (fun w => negb (row_in w f1)) f2) maxdiff) as (js & Ejs).
+  { intros w Hw. apply run_row_joinable. apply (run_passes_rows m f1 f2 E w). apply in_app_or in Hw. apply in_or_app.
+    destruct Hw as [Hw|Hw]; [left; exact Hw | right; apply filter_In in Hw; apply Hw]. }
   destruct m; [| eexists; reflexivity | |]; rewrite Ejs; cbn [bind]; eexists; reflexivity. Qed.
 
 Theorem program_run_total m maxdiff : exists o, program_run P seeds m maxdiff refs qq = Ok o.
